@@ -315,3 +315,13 @@ Theorem C18_random_strategy :
                  nth_error rs i = Some r' /\ flt (st r') = true.
 Proof. exact random_some_when_some. Qed.
 Print Assumptions C18_random_strategy.
+
+(* (6) The tracing callbacks only observe: whatever they yield (return, panic, a panic whose payload panics
+   when dropped), the published state is the same fold. This is the model of the code as repaired by 19290c9
+   (before it a panicking on_check_failed made the timed-out check vanish: seeded/C18-r5); the driver makes
+   the registered callbacks panic (script bit 64 / 128 / 256) and the model ignores those bits. *)
+Theorem C18_observers_cannot_change_status :
+  forall (O : Type) (obs : rstate -> status -> rstate -> list O) f s rs,
+    fst (run_observed obs f s rs) = run_results f s rs.
+Proof. exact @observers_cannot_change_status. Qed.
+Print Assumptions C18_observers_cannot_change_status.
